@@ -21,6 +21,11 @@ def oid(rng, prefix=(1, 3, 6, 1), min_extra=1, max_extra=6, small=0.6):
     return tuple(prefix) + tuple(arc(rng, small) for _ in range(n))
 
 
+def second_arc_under_2(rng):
+    """Second arc below 2 (joint-iso-itu-t): any value whose first subidentifier 80 + Y fits 32 bits."""
+    return rng.choice([0, 39, 40, 47, 48, 100, 175, 176, 999, 16303, 16304, 2097071, 2097072, 2**28 - 81, 2**28 - 80, 2**32 - 81, rng.randrange(40, 2**32 - 80)])
+
+
 def oid_text(arcs):
     return ber.oid_text(arcs)
 
@@ -149,7 +154,9 @@ def value(rng, kinds=DATA_KINDS, real_binary=True):
     elif k in ("octets", "opaque", "objdesc"):
         v = [k, (berlike(rng) if rng.random() < (0.3 if k == "opaque" else 0.08) else octets(rng)).hex()]
     elif k == "oid":
-        v = ["oid", oid_text(oid(rng, prefix=(rng.choice([0, 1, 2]), rng.randrange(0, 40)), min_extra=0, max_extra=8))]
+        first = rng.choice([0, 1, 2])
+        second = second_arc_under_2(rng) if first == 2 and rng.random() < 0.4 else rng.randrange(0, 40)
+        v = ["oid", oid_text(oid(rng, prefix=(first, second), min_extra=0, max_extra=8))]
     elif k == "ipaddr":
         v = ["ipaddr", ".".join(str(rng.choice([0, 1, 127, 128, 255, rng.randrange(256)])) for _ in range(4))]
     elif k == "bool":
